@@ -3,8 +3,9 @@
 (* in src/processor.rs.  The step operators (and both layers) come from Renumber.               *)
 EXTENDS Renumber
 
-CONSTANTS DevChain,     \* TRUE = as the code is: bookmark targets rewritten pair by pair
-          DevDang       \* TRUE = as the code is: dangling references are left alone
+\* deviation switches: FALSE = the code as it is since the fix: commits; TRUE = the repaired defect
+CONSTANTS DevChain,     \* TRUE = bookmark targets rewritten pair by pair (C10:bookmark.chain)
+          DevDang       \* TRUE = dangling references are left alone (C10:dangling.capture, .pageorder)
 
 VARIABLES before,   \* the document the call started from (with its declarative page sequence)
           start,    \* starting_id
@@ -26,14 +27,14 @@ Begin ==
     /\ i' = 1 /\ live' = DOMAIN s.objs
     /\ UNCHANGED <<before, start, s, ord>>
 
-\* for (old, new) in pages.iter().zip(page_order) { remove/insert; renumber_bookmarks }
+\* for (old, new) in pages.iter().zip(page_order) { remove/insert } (DevChain: ; renumber_bookmarks per pair)
 PagePair ==
     /\ pc = "ppair" /\ i <= Len(pg)
     /\ s' = PagePairStep(s, pg[i], srt[i], DevChain)
     /\ i' = i + 1
     /\ UNCHANGED <<before, start, pc, pg, srt, ord, live>>
 
-\* re-insert; traverse_objects(action); replace.clear()
+\* remap_bookmarks(&replace); re-insert; traverse_objects(action); replace.clear()
 PageFinish ==
     /\ pc = "ppair" /\ i > Len(pg)
     /\ s' = FinishPass(s, live, DevChain, DevDang)
@@ -50,14 +51,14 @@ DensePlan ==
     /\ i' = 1 /\ pc' = "dpair"
     /\ UNCHANGED <<before, start, pg, srt>>
 
-\* for (old, new) in &replace { remove/collect; renumber_bookmarks }
+\* for (old, new) in &replace { remove/collect } (DevChain: ; renumber_bookmarks per pair)
 DensePair ==
     /\ pc = "dpair" /\ i <= Len(ord)
     /\ s' = DensePairStep(s, ord[i], DevChain)
     /\ i' = i + 1
     /\ UNCHANGED <<before, start, pc, pg, srt, ord, live>>
 
-\* re-insert; traverse_objects(action); self.max_id = new_id - 1
+\* remap_bookmarks(&replace); re-insert; traverse_objects(action); self.max_id = new_id.saturating_sub(1)
 DenseFinish ==
     /\ pc = "dpair" /\ i > Len(ord)
     /\ s' = SetMaxId(FinishPass(s, live, DevChain, DevDang), start, Cardinality(live))
